@@ -157,6 +157,10 @@ class G:
             return ("list", [self.form(d - 1) for _ in range(n)])
         if t < 0.68:
             return ("vec", [self.form(d - 1) for _ in range(n)])
+        if t < 0.76 and r.random() < 0.3:
+            # namespaced map literal: bare symbol and keyword keys take the map's namespace, _/k stays bare
+            ks = r.sample(["b", "c", "_/d", ":k", ":_/m", "other/q", ":other/k", "1", '"s"'], min(n, 3))
+            return ("nsmap", r.choice(["a", "ns.q", "é"]), [(("raw", k), self.value_form(d - 1)) for k in ks])
         if t < 0.76:
             ks = r.sample(KWS[:4] + ["1", "2", '"k"'], min(n, 3))
             return ("map", [(("raw", k), self.value_form(d - 1)) for k in ks])
@@ -196,6 +200,15 @@ class G:
                     out.append((" ", "ws"))
                 self.tokens(x, out)
             out.append((c, "close"))
+        elif k == "nsmap":
+            out.append(("#:" + f[1] + "{", "open"))
+            for i, (a, c) in enumerate(f[2]):
+                if i:
+                    out.append((" ", "ws"))
+                self.tokens(a, out)
+                out.append((" ", "ws"))
+                self.tokens(c, out)
+            out.append(("}", "close"))
         elif k == "map":
             out.append(("{", "open"))
             for i, (a, c) in enumerate(f[1]):
@@ -266,6 +279,8 @@ def worker(spec, out):
     PATTERN = type(re.compile(""))
     EQ = b.core("=")
     PR = b.core("pr-str")
+    FIRST = b.core("first")
+    READER_MADE = {("basilisp.core", "unquote"), ("basilisp.core", "unquote-splicing"), (None, "var"), (None, "quote"), ("basilisp.core", "deref")}
     DATA_TYPES = (type(None), bool, int, float, complex, Fraction, Decimal, str, bytes, b.sym.Symbol, b.kw.Keyword, PATTERN, uuid.UUID, datetime.datetime, TaggedLiteral, reader.ReaderConditional)
 
     class Timeout(BaseException):
@@ -451,7 +466,7 @@ def worker(spec, out):
         starts = line_starts(text)
         seen = [0]
 
-        def walk(v, in_fnlit, depth=0):
+        def walk(v, in_fnlit, depth=0, synthesized=False, parent_text=""):
             if depth > 40:
                 return
             m = getattr(v, "meta", None) if isinstance(v, (b.sym.Symbol, I.IPersistentVector, I.IPersistentMap, I.IPersistentSet, I.IPersistentList, I.ISeq)) else None
@@ -472,17 +487,32 @@ def worker(spec, out):
                             ok = True if in_fnlit else same_form(strip_meta(got), strip_meta(v))
                         else:
                             ok = same_form(strip_meta(got), strip_meta(v))
+                            if not ok and parent_text.startswith("#:") and isinstance(v, b.sym.Symbol) and isinstance(got, b.sym.Symbol) and got.name == v.name and got.ns in (None, "_"):
+                                ok = True  # a key of a namespaced map literal: its text alone does not carry the namespace the literal supplies
                     if not ok and not in_fnlit:
                         # where does the recorded span start relative to the true text?
                         out.violation(f"C16/span/reread-differs/{kind_}", {"span_text": st[:120], "form": repr(v)[:120], "reread": (repr(rr[1])[:120] if rr[0] == "forms" else rr[0]), "origin": origin}, case)
+            elif isinstance(v, (I.IPersistentList, I.ISeq)) and isinstance(FIRST(v), b.sym.Symbol) and (FIRST(v).meta is None or FIRST(v).meta.val_at(LINE) is None) and (FIRST(v).ns, FIRST(v).name) in READER_MADE:
+                # ~x / ~@x / #'x / 'x / @x: the (unquote x) ... list is made by the reader and is not itself a collection of the text; x is
+                for x in itertools.islice(iter(v), 1, None):
+                    walk(x, in_fnlit, depth + 1, synthesized=synthesized, parent_text=parent_text)
+                return
+            elif isinstance(v, (b.sym.Symbol, I.IPersistentVector, I.IPersistentMap, I.IPersistentSet, I.IPersistentList, I.ISeq)) and not in_fnlit and not synthesized and not isinstance(v, b.lqueue.PersistentQueue):
+                # a symbol or collection written in the text but carrying no span at all
+                kind_ = "symbol" if isinstance(v, b.sym.Symbol) else ("set" if isinstance(v, I.IPersistentSet) else ("map" if isinstance(v, I.IPersistentMap) else ("vector" if isinstance(v, I.IPersistentVector) else "list")))
+                out.count("nodes_without_span")
+                out.violation(f"C16/span/missing/nested-{kind_}", {"text": text[:200], "form": repr(v)[:100], "parent": parent_text[:80]}, {"kind": "span", "text": text, "origin": origin})
+            my_text = (span_text(text, starts, m) or "") if (m is not None and m.val_at(LINE) is not None) else ""
             if isinstance(v, (I.IPersistentVector, I.IPersistentList, I.IPersistentSet)) or (isinstance(v, I.ISeq) and not isinstance(v, str)):
-                is_fn = isinstance(v, (I.IPersistentList, I.ISeq)) and len(list(itertools.islice(iter(v), 2))) >= 2 and isinstance(next(iter(v)), b.sym.Symbol) and next(iter(v)).name == "fn*" and m is not None and span_text(text, starts, m) is not None and (span_text(text, starts, m) or "").startswith(("#(", "("))
-                for x in v:
-                    walk(x, in_fnlit or is_fn, depth + 1)
+                is_fn =isinstance(v, (I.IPersistentList, I.ISeq)) and len(list(itertools.islice(iter(v), 2))) >= 2 and isinstance(next(iter(v)), b.sym.Symbol) and next(iter(v)).name == "fn*" and m is not None and span_text(text, starts, m) is not None and (span_text(text, starts, m) or "").startswith(("#(", "("))
+                # the head of a list written with a prefix reader macro ('x @x #'x ~x ~@x) is supplied by the reader, not by the text
+                prefixed = isinstance(v, (I.IPersistentList, I.ISeq)) and my_text.startswith(("'", "@", "#'", "~", "#?"))
+                for i, x in enumerate(v):
+                    walk(x, in_fnlit or is_fn, depth + 1, synthesized=(prefixed and i == 0) or not my_text, parent_text=my_text)
             elif isinstance(v, I.IPersistentMap):
                 for a, c in v.items():
-                    walk(a, in_fnlit, depth + 1)
-                    walk(c, in_fnlit, depth + 1)
+                    walk(a, in_fnlit, depth + 1, synthesized=not my_text, parent_text=my_text)
+                    walk(c, in_fnlit, depth + 1, synthesized=not my_text, parent_text=my_text)
 
         for f in forms:
             # the property is about plain, not syntax-quoted text: top-level forms containing a syntax quote are skipped
@@ -491,7 +521,7 @@ def worker(spec, out):
             if st is not None and "`" in st:
                 out.count("toplevel_forms_skipped_syntax_quote")
                 continue
-            walk(f, False)
+            walk(f, False, synthesized=True)  # top-level presence is judged for plain literals by literal_spans_present
         return seen[0]
 
     def literal_spans_present(text, origin):
